@@ -31,7 +31,7 @@
 
 import datetime, fnmatch, re, struct, sys
 from array import array
-from decimal import Decimal
+from decimal import Decimal, InvalidOperation
 
 from whoosh import analysis, columns, formats
 from whoosh.compat import with_metaclass
@@ -687,7 +687,11 @@ class NUMERIC(FieldType):
 
         dc = self.decimal_places
         if dc and isinstance(x, (string_type, Decimal)):
-            x = Decimal(x) * (10 ** dc)
+            try:
+                x = Decimal(x) * (10 ** dc)
+            except InvalidOperation:
+                # Report unparseable text the same way int()/float() do
+                raise ValueError("%r is not a valid number" % (x,))
         elif isinstance(x, Decimal):
             raise TypeError("Can't index a Decimal object unless you specified "
                             "decimal_places on the field")
